@@ -12,19 +12,23 @@ K6 == {kA, kHp, kSO4, kAmS, kFe, kX}
 K8 == {kA, kHp, kSO4, kAmS, kFe, kX, kAp, kCO3}
 K10 == K8 \cup {kAmSs, kBs}
 K2 == {kA, kAmS}
+K1p == {kAmS}
 K2b == {kA, kB}
 K3 == {kA, kB, kAmS}
 
 I_2 == {Coef(2, 0, 0)}
-I_q == {Coef(1, 0, 0), Coef(2, 0, 0), Coef(1000, 0, 0)}
+I_q == {Coef(1, 0, 0), Coef(1000, 0, 0)}
 I_t == {Coef(1, 0, 0), Coef(2, 0, 0), Coef(10, 0, 0), Coef(1000, 0, 0)}
-D_q == {Coef(2, 2, 25)}
-D_t == {Coef(0, 1, 5), Coef(1, 1, 5), Coef(2, 2, 25), Coef(0, 3, 125)}
+D_q == {Coef(2, 1, 0), Coef(0, 4, 625)}
+D_t == {Coef(0, 1, 5), Coef(1, 1, 5), Coef(2, 2, 25), Coef(0, 3, 125), Coef(2, 1, 0), Coef(0, 4, 625), Coef(1, 5, 3125)}
 N_q == {Coef(2, 0, 0), Coef(0, 1, 5)}
 N_t == {Coef(1, 0, 0), Coef(2, 0, 0), Coef(1000, 0, 0), Coef(0, 1, 5)}
 None == {}
 
-P(neg, digs, e, st) == [v |-> Dec(neg, digs, e), style |-> st]
+P(neg, digs, e, st) == [kind |-> "num", v |-> Dec(neg, digs, e), style |-> st]
+PQ(digs, e, st, ex) == [kind |-> "qty", v |-> Dec(FALSE, digs, e), style |-> st,
+                        ue |-> CHOOSE u \in UnitExprs : u.expr = ex]
+PS(name) == [kind |-> "sym", name |-> name]
 P_one == {P(FALSE, <<1, 5>>, 0, "fix")}
 \* parameters over 30 decades: integers, fixed and scientific notation, more than three digits,
 \* ties at the third digit, all nines (carry when printed), negative
@@ -40,8 +44,11 @@ P_all == P_few \cup
            P(TRUE, <<2, 5>>, 0, "fix"), P(FALSE, <<1, 0, 0, 4, 9>>, 4, "int"), P(FALSE, <<7>>, -6, "fix") }
 W_all == { [k |-> "ref", v |-> "doi:12/ab"], [k |-> "name", v |-> "r1"] }
 W_ref == { [k |-> "ref", v |-> "doi:12/ab"] }
-C_q == {"# a comment"}
-C_t == {"# a comment", "   # A -> B; 1", ""}
+Cm(t, tok) == [t |-> t, tok |-> tok]
+C_q == {Cm("# a comment", "#")}
+C_t == {Cm("# a comment", "#"), Cm("   # A -> B; 1", "#"), Cm("", "")}
+\* comment lines for the comment_tokens dimension: each token, indented, blank
+C_tok == {Cm("# a comment", "#"), Cm("// note", "//"), Cm("  % A -> B; 1", "%"), Cm("  ", "")}
 A_AB == {"A", "(NH4)2SO4"}
 A_AB2 == {"A", "B"}
 F_unk == {"unknownkey"}
@@ -52,5 +59,56 @@ O_all == AllPrintOpts
 O_def == {Opt(TRUE, TRUE)}
 O_two == {Opt(TRUE, TRUE), Opt(FALSE, FALSE)}
 W_name == { [k |-> "name", v |-> "r1"] }
+\* parameter spellings and kinds beyond plain literals: printf-style and upper-case exponents,
+\* 10**k, quantities of the default parsing context, quoted names
+P_kinds == { P(FALSE, <<1, 5>>, 7, "sciP"), P(FALSE, <<1, 2, 3, 4, 5, 6>>, -17, "sciP"), P(FALSE, <<2, 5>>, -3, "sciE"),
+             P(FALSE, <<1>>, 3, "pow10"), P(FALSE, <<1>>, 0, "pow10"), P(FALSE, <<1, 5>>, 0, "fix"),
+             PQ(<<1>>, 8, "sci", "/molar/second"), PQ(<<2, 5>>, 0, "fix", "/second"), PQ(<<1, 2, 3, 4, 5>>, -4, "sciP", "*molar"),
+             PQ(<<3>>, 0, "int", "/molar**2/second"), PS("k"), PS("k_fwd1") }
+P_fk == P_few \cup P_kinds
+P_ak == P_all \cup P_kinds
+P_cfg == { P(FALSE, <<1, 5>>, 0, "fix"), P(FALSE, <<1, 2, 3, 4, 5, 6>>, -17, "sci"), PS("k"),
+           PQ(<<1>>, 8, "sci", "/molar/second") }
+Fm_all == {"list", "tuple", "set", "dict", "str"}
+Fm_list == {"list"}
+\* configurations: one dimension varied at a time, plus two combinations
+Cfg(spc, eol, g, ct, ms, dq) == [DefaultCfg EXCEPT !.spc = spc, !.eol = eol, !.gmode = g, !.ctoks = ct, !.msfk = ms, !.dq = dq]
+ArgP == [some |-> TRUE, v |-> Dec(FALSE, <<2, 5>>, 0)]
+Cfg_none == {}
+Cfg_read == { Cfg("wide", "lf", "default", "default", FALSE, FALSE), Cfg("tight", "lf", "default", "default", FALSE, TRUE),
+              Cfg("normal", "lfnt", "default", "default", FALSE, FALSE), Cfg("normal", "crlf", "default", "default", FALSE, FALSE),
+              Cfg("normal", "lf", "empty", "default", FALSE, FALSE), Cfg("normal", "lf", "none", "default", FALSE, FALSE),
+              Cfg("wide", "crlf", "none", "default", FALSE, TRUE),
+              [DefaultCfg EXCEPT !.argname = "n1"], [DefaultCfg EXCEPT !.argref = "r9", !.argparam = ArgP],
+              [DefaultCfg EXCEPT !.argname = "n1", !.argref = "r9", !.gmode = "none", !.argparam = ArgP] }
+Cfg_sys == { Cfg("normal", "lf", "default", "custom", FALSE, FALSE), Cfg("wide", "crlf", "default", "custom", FALSE, FALSE),
+             Cfg("normal", "lfnt", "default", "default", TRUE, FALSE), Cfg("normal", "lf", "none", "custom", TRUE, FALSE) }
+Cfg_one == { Cfg("wide", "crlf", "default", "custom", FALSE, TRUE) }
+C_two == {Cm("# a comment", "#"), Cm("// note", "//")}
+F_all4 == {"unknownkey", "missingarrow", "wrongarrow", "notacomment"}
+F_cmt == {"notacomment", "unknownkey"}
 F_all == {"unknownkey", "missingarrow", "wrongarrow"}
+\* the slices (one record per former configuration file)
+SL_coefs_q == [Keys |-> K1p, AllowedKeys |-> None, AllowedModes |-> No, AllowedForms |-> Fm_list, Forms |-> {"bare", "n", "nstar", "dec", "decstar"}, IntCoefs |-> I_q, DecCoefs |-> D_q, InactCoefs |-> N_q, MaxReac |-> 2, MaxProd |-> 1, MaxInact |-> 1, Arrows |-> {"->"}, Params |-> None, Kws |-> None, MaxLines |-> 1, Comments |-> None, MaxComments |-> 0, FaultKinds |-> None, PrintOpts |-> O_two, Configs |-> Cfg_none]
+SL_coefs_t == [Keys |-> K1p, AllowedKeys |-> None, AllowedModes |-> No, AllowedForms |-> Fm_list, Forms |-> {"bare", "n", "nstar", "dec", "decstar"}, IntCoefs |-> I_t, DecCoefs |-> D_t, InactCoefs |-> N_t, MaxReac |-> 2, MaxProd |-> 1, MaxInact |-> 1, Arrows |-> {"->"}, Params |-> None, Kws |-> None, MaxLines |-> 1, Comments |-> None, MaxComments |-> 0, FaultKinds |-> None, PrintOpts |-> O_two, Configs |-> Cfg_none]
+SL_config_q == [Keys |-> K2b, AllowedKeys |-> A_AB2, AllowedModes |-> No, AllowedForms |-> Fm_list, Forms |-> {"bare", "n"}, IntCoefs |-> I_2, DecCoefs |-> None, InactCoefs |-> I_2, MaxReac |-> 1, MaxProd |-> 1, MaxInact |-> 1, Arrows |-> {"->"}, Params |-> P_cfg, Kws |-> W_ref, MaxLines |-> 1, Comments |-> None, MaxComments |-> 0, FaultKinds |-> None, PrintOpts |-> O_two, Configs |-> Cfg_read]
+SL_config_t == [Keys |-> K2b, AllowedKeys |-> A_AB2, AllowedModes |-> YesNo, AllowedForms |-> Fm_list, Forms |-> {"bare", "n"}, IntCoefs |-> I_2, DecCoefs |-> None, InactCoefs |-> I_2, MaxReac |-> 1, MaxProd |-> 1, MaxInact |-> 1, Arrows |-> {"->", "="}, Params |-> P_cfg, Kws |-> W_all, MaxLines |-> 1, Comments |-> None, MaxComments |-> 0, FaultKinds |-> None, PrintOpts |-> O_two, Configs |-> Cfg_read]
+SL_configsys_q == [Keys |-> K2, AllowedKeys |-> A_AB2, AllowedModes |-> YesNo, AllowedForms |-> Fm_list, Forms |-> {"bare"}, IntCoefs |-> None, DecCoefs |-> None, InactCoefs |-> None, MaxReac |-> 1, MaxProd |-> 1, MaxInact |-> 0, Arrows |-> {"->"}, Params |-> P_one, Kws |-> None, MaxLines |-> 2, Comments |-> C_tok, MaxComments |-> 1, FaultKinds |-> F_cmt, PrintOpts |-> O_two, Configs |-> Cfg_sys]
+SL_configsys_t == [Keys |-> K3, AllowedKeys |-> A_AB2, AllowedModes |-> YesNo, AllowedForms |-> Fm_list, Forms |-> {"bare"}, IntCoefs |-> None, DecCoefs |-> None, InactCoefs |-> None, MaxReac |-> 1, MaxProd |-> 1, MaxInact |-> 0, Arrows |-> {"->", "="}, Params |-> P_one, Kws |-> None, MaxLines |-> 2, Comments |-> C_tok, MaxComments |-> 1, FaultKinds |-> F_cmt, PrintOpts |-> O_two, Configs |-> Cfg_sys]
+SL_cover == [Keys |-> K2b, AllowedKeys |-> A_AB, AllowedModes |-> Yes, AllowedForms |-> Fm_list, Forms |-> {"bare"}, IntCoefs |-> I_2, DecCoefs |-> None, InactCoefs |-> I_2, MaxReac |-> 1, MaxProd |-> 1, MaxInact |-> 1, Arrows |-> {"->"}, Params |-> P_one, Kws |-> W_ref, MaxLines |-> 2, Comments |-> C_two, MaxComments |-> 1, FaultKinds |-> F_all4, PrintOpts |-> O_all, Configs |-> Cfg_one]
+SL_faults2_q == [Keys |-> K3, AllowedKeys |-> A_AB2, AllowedModes |-> Yes, AllowedForms |-> Fm_all, Forms |-> {"bare", "n"}, IntCoefs |-> I_2, DecCoefs |-> None, InactCoefs |-> I_2, MaxReac |-> 1, MaxProd |-> 1, MaxInact |-> 1, Arrows |-> {"->", "="}, Params |-> None, Kws |-> None, MaxLines |-> 1, Comments |-> None, MaxComments |-> 0, FaultKinds |-> F_all, PrintOpts |-> O_two, Configs |-> Cfg_none]
+SL_faults_q == [Keys |-> K3, AllowedKeys |-> A_AB, AllowedModes |-> Yes, AllowedForms |-> Fm_list, Forms |-> {"bare", "n"}, IntCoefs |-> I_2, DecCoefs |-> None, InactCoefs |-> I_2, MaxReac |-> 2, MaxProd |-> 1, MaxInact |-> 1, Arrows |-> {"->", "="}, Params |-> None, Kws |-> None, MaxLines |-> 1, Comments |-> None, MaxComments |-> 0, FaultKinds |-> F_all, PrintOpts |-> O_two, Configs |-> Cfg_none]
+SL_faults_t == [Keys |-> K3, AllowedKeys |-> A_AB, AllowedModes |-> YesNo, AllowedForms |-> Fm_list, Forms |-> {"bare", "n"}, IntCoefs |-> I_2, DecCoefs |-> None, InactCoefs |-> I_2, MaxReac |-> 2, MaxProd |-> 1, MaxInact |-> 1, Arrows |-> {"->", "="}, Params |-> P_one, Kws |-> None, MaxLines |-> 1, Comments |-> None, MaxComments |-> 0, FaultKinds |-> F_all, PrintOpts |-> O_two, Configs |-> Cfg_none]
+SL_keys_q == [Keys |-> K6, AllowedKeys |-> None, AllowedModes |-> No, AllowedForms |-> Fm_list, Forms |-> {"bare", "n"}, IntCoefs |-> I_2, DecCoefs |-> None, InactCoefs |-> I_2, MaxReac |-> 2, MaxProd |-> 1, MaxInact |-> 1, Arrows |-> {"->"}, Params |-> None, Kws |-> None, MaxLines |-> 1, Comments |-> None, MaxComments |-> 0, FaultKinds |-> None, PrintOpts |-> O_two, Configs |-> Cfg_none]
+SL_keys_t == [Keys |-> K10, AllowedKeys |-> None, AllowedModes |-> No, AllowedForms |-> Fm_list, Forms |-> {"bare", "n"}, IntCoefs |-> I_2, DecCoefs |-> None, InactCoefs |-> I_2, MaxReac |-> 2, MaxProd |-> 1, MaxInact |-> 1, Arrows |-> {"->", "="}, Params |-> None, Kws |-> None, MaxLines |-> 1, Comments |-> None, MaxComments |-> 0, FaultKinds |-> None, PrintOpts |-> O_two, Configs |-> Cfg_none]
+SL_params_q == [Keys |-> K2b, AllowedKeys |-> None, AllowedModes |-> No, AllowedForms |-> Fm_list, Forms |-> {"bare"}, IntCoefs |-> None, DecCoefs |-> None, InactCoefs |-> None, MaxReac |-> 1, MaxProd |-> 1, MaxInact |-> 0, Arrows |-> {"->", "="}, Params |-> P_few, Kws |-> W_all, MaxLines |-> 1, Comments |-> None, MaxComments |-> 0, FaultKinds |-> None, PrintOpts |-> O_all, Configs |-> Cfg_none]
+SL_params_t == [Keys |-> K2b, AllowedKeys |-> None, AllowedModes |-> No, AllowedForms |-> Fm_list, Forms |-> {"bare", "n"}, IntCoefs |-> I_2, DecCoefs |-> None, InactCoefs |-> None, MaxReac |-> 1, MaxProd |-> 1, MaxInact |-> 0, Arrows |-> {"->", "="}, Params |-> P_all, Kws |-> W_all, MaxLines |-> 1, Comments |-> None, MaxComments |-> 0, FaultKinds |-> None, PrintOpts |-> O_all, Configs |-> Cfg_none]
+SL_pkinds_q == [Keys |-> K2b, AllowedKeys |-> None, AllowedModes |-> No, AllowedForms |-> Fm_list, Forms |-> {"bare", "n"}, IntCoefs |-> I_2, DecCoefs |-> None, InactCoefs |-> None, MaxReac |-> 1, MaxProd |-> 1, MaxInact |-> 0, Arrows |-> {"->", "="}, Params |-> P_fk, Kws |-> W_all, MaxLines |-> 1, Comments |-> None, MaxComments |-> 0, FaultKinds |-> None, PrintOpts |-> O_all, Configs |-> Cfg_none]
+SL_pkinds_t == [Keys |-> K2b, AllowedKeys |-> None, AllowedModes |-> No, AllowedForms |-> Fm_list, Forms |-> {"bare", "n"}, IntCoefs |-> I_2, DecCoefs |-> None, InactCoefs |-> None, MaxReac |-> 1, MaxProd |-> 1, MaxInact |-> 0, Arrows |-> {"->", "="}, Params |-> P_ak, Kws |-> W_all, MaxLines |-> 1, Comments |-> None, MaxComments |-> 0, FaultKinds |-> None, PrintOpts |-> O_all, Configs |-> Cfg_none]
+SL_system2_t == [Keys |-> K2b, AllowedKeys |-> None, AllowedModes |-> No, AllowedForms |-> Fm_list, Forms |-> {"bare", "n"}, IntCoefs |-> I_2, DecCoefs |-> None, InactCoefs |-> I_2, MaxReac |-> 1, MaxProd |-> 1, MaxInact |-> 1, Arrows |-> {"->", "="}, Params |-> P_one, Kws |-> W_ref, MaxLines |-> 2, Comments |-> C_q, MaxComments |-> 1, FaultKinds |-> None, PrintOpts |-> O_all, Configs |-> Cfg_none]
+SL_system3_q == [Keys |-> K2b, AllowedKeys |-> None, AllowedModes |-> No, AllowedForms |-> Fm_list, Forms |-> {"bare"}, IntCoefs |-> I_2, DecCoefs |-> None, InactCoefs |-> None, MaxReac |-> 1, MaxProd |-> 1, MaxInact |-> 0, Arrows |-> {"="}, Params |-> P_one, Kws |-> W_name, MaxLines |-> 2, Comments |-> None, MaxComments |-> 0, FaultKinds |-> None, PrintOpts |-> O_all, Configs |-> Cfg_none]
+SL_system_q == [Keys |-> K2b, AllowedKeys |-> None, AllowedModes |-> No, AllowedForms |-> Fm_list, Forms |-> {"bare"}, IntCoefs |-> I_2, DecCoefs |-> None, InactCoefs |-> None, MaxReac |-> 1, MaxProd |-> 1, MaxInact |-> 0, Arrows |-> {"->", "="}, Params |-> P_one, Kws |-> W_name, MaxLines |-> 2, Comments |-> C_q, MaxComments |-> 1, FaultKinds |-> None, PrintOpts |-> O_all, Configs |-> Cfg_none]
+SL_system_t == [Keys |-> K2b, AllowedKeys |-> None, AllowedModes |-> No, AllowedForms |-> Fm_list, Forms |-> {"bare"}, IntCoefs |-> None, DecCoefs |-> None, InactCoefs |-> None, MaxReac |-> 1, MaxProd |-> 1, MaxInact |-> 0, Arrows |-> {"->", "="}, Params |-> P_one, Kws |-> None, MaxLines |-> 3, Comments |-> C_t, MaxComments |-> 1, FaultKinds |-> None, PrintOpts |-> O_all, Configs |-> Cfg_none]
+AllSlices == ("coefs_q" :> SL_coefs_q) @@ ("coefs_t" :> SL_coefs_t) @@ ("config_q" :> SL_config_q) @@ ("config_t" :> SL_config_t) @@ ("configsys_q" :> SL_configsys_q) @@ ("configsys_t" :> SL_configsys_t) @@ ("cover" :> SL_cover) @@ ("faults2_q" :> SL_faults2_q) @@ ("faults_q" :> SL_faults_q) @@ ("faults_t" :> SL_faults_t) @@ ("keys_q" :> SL_keys_q) @@ ("keys_t" :> SL_keys_t) @@ ("params_q" :> SL_params_q) @@ ("params_t" :> SL_params_t) @@ ("pkinds_q" :> SL_pkinds_q) @@ ("pkinds_t" :> SL_pkinds_t) @@ ("system2_t" :> SL_system2_t) @@ ("system3_q" :> SL_system3_q) @@ ("system_q" :> SL_system_q) @@ ("system_t" :> SL_system_t)
+QuickNames == {"keys_q", "coefs_q", "pkinds_q", "system_q", "config_q", "configsys_q", "faults2_q"}
 =============================================================================
